@@ -389,9 +389,16 @@ class OscMessageDispatcher(AbstractWrappingDispatcher):
 class OscMessagePatternDispatcher(OscMessageDispatcher):
     def __call__(self, msg, time, addr, recv_port):
         pattern = msg[0]
-        for key, funcs in self.active.copy().items():
-            if _match_osc_address_pattern(pattern, key):
-                for func in funcs:
+        matches = dict()
+        # wrapped_funcs keeps the responders in order of registration.
+        for func_proxy in list(self.wrapped_funcs):
+            func = self.wrapped_funcs.get(func_proxy)
+            if func is None:
+                continue  # Removed by a previous responder.
+            for key in self.get_keys_for_func_proxy(func_proxy):
+                if key not in matches:
+                    matches[key] = _match_osc_address_pattern(pattern, key)
+                if matches[key]:
                     fn.value(func, msg, time, addr, recv_port)
 
     def type_key(self):
